@@ -631,7 +631,7 @@ def run_c09(chk):
                 ln = int(traces[0][1:])
                 nt = ntokens(lines.get(ln, ""))
                 reads = int(row.f["reads"] or 0)
-                bound = 14 * (nt + 1) + 24
+                bound = 12 * nt + 4          # C09_work_bound_turn: 12 * room + idx + 4 <= 12 * tokens + 4
                 chk.count("reads<=bound" if reads <= bound else "reads>bound")
                 if reads > bound:
                     chk.fail("turn-work-unbounded", f"line {ln} ({nt} tokens): {reads} cursor reads in one call (bound {bound})", rep)
